@@ -784,6 +784,11 @@ class StyleProperties:
         if len(s) == 0 or any(c not in ("underline", "noUnderline", "lineThrough", "noLineThrough", "overline", "noOverline") for c in s):
           raise ValueError("Bad tts:textDecoration syntax")
 
+        # each of the three decorations can be specified at most once
+
+        if len({c.lower().replace("no", "", 1) for c in s}) != len(s):
+          raise ValueError("Bad tts:textDecoration syntax")
+
         underline = None
         line_through = None
         overline = None
